@@ -47,6 +47,22 @@ def run_history(nn, pre, xs, k):
     return nn.symdel(xs, max_edits=k)
 
 
+def edited_search(kind, xs0, pos, new, k, fn):
+    """search a container, set one position in place, search the same object again"""
+    import numpy as _np
+    import pandas as _pd
+    obj = list(xs0) if kind == "list" else (_np.array(xs0, dtype=object) if kind == "ndarray" else _pd.Series(xs0, index=range(5, 5 + len(xs0))))
+    try:
+        fn(obj, k)
+    except Exception:  # noqa
+        pass
+    if kind == "series":
+        obj.iloc[pos] = new
+    else:
+        obj[pos] = new
+    return fn(obj, k)
+
+
 def run(chk):
     nn = search.nn()
     chk.trusted_base = TRUSTED
@@ -148,6 +164,25 @@ def run(chk):
             pre.append((rng.choice(["two-q", "two-q", "two-r", "db", "self", "ham", "hash", "kd"]), other, rng.choice([k, k, rng.randint(1, 3)]),
                         rng.choice([1, 2, 5])))
         add("symdel|after-history", xs, k, model=False, fn=prelude_fn(pre), extra={"history": [list(h) for h in pre]})
+    # the same container object searched, edited IN PLACE (same length), and searched again: the second answer is that of its
+    # present content (nothing derived from the object may be kept across calls)
+    import numpy as _np
+    import pandas as _pd
+
+    for _ in range(12 if not thorough else 100):
+        alpha, pool = rng.choice(pools)
+        xs0 = gen.sub_collection(rng, pool, rng.randint(3, 9))
+        pos = rng.randrange(len(xs0))
+        new = rng.choice(pool)
+        k = rng.randint(1, 2)
+        kind = rng.choice(["list", "ndarray", "series"])
+        xs1 = list(xs0)
+        xs1[pos] = new
+        which = rng.choice(["symdel", "nearest_neighbor"])
+        f_ = (lambda o, k: nn.symdel(o, max_edits=k)) if which == "symdel" else (lambda o, k: nn.nearest_neighbor(o, max_edits=k))
+        add(f"{which}|edited-in-place-{kind}", xs1, k, model=False,
+            fn=lambda _xs, k, kind=kind, xs0=xs0, pos=pos, new=new, f_=f_: edited_search(kind, xs0, pos, new, k, f_),
+            extra={"history": [], "edited_in_place": {"container": kind, "first_searched": xs0, "then_set": [pos, new]}})
     # repertoires (oracle only for the big ones)
     for _ in range(25 if not thorough else 150):
         n = rng.choice([1, 2, 5, 20, 60, 120] if not thorough else [5, 50, 200, 600])
@@ -161,7 +196,8 @@ def run(chk):
     def on_violation(idx, case, rep):
         meta = case[4]
         if "history" in meta:       # the failure needs the earlier calls: replayed as a history, not shrunk
-            rep["replay_note"] = "run the calls in meta.history first (see run_history), then symdel(xs, max_edits=k)"
+            rep["replay_note"] = ("run the calls in meta.history first (see run_history), then symdel(xs, max_edits=k)" if "edited_in_place" not in meta else
+                                  "search meta.edited_in_place.first_searched held in the named container, set position then_set[0] to then_set[1] in place, search the same object again")
             return rep
         try:
             small = shrink(meta["xs"], meta["k"], lambda xs, k: nn.symdel(xs, max_edits=k))
@@ -184,7 +220,13 @@ def replay(path):
     hist = [tuple(h) for h in inp.get("history", [])]
     if hist:
         print("history:", hist)
-    real = core.call_real(lambda: core.canon_trips(run_history(nn, hist, xs, k)))
+    ed = inp.get("edited_in_place")
+    if ed:
+        print("edited in place:", ed)
+        real = core.call_real(lambda: core.canon_trips(edited_search(ed["container"], ed["first_searched"], ed["then_set"][0], ed["then_set"][1], k,
+                                                                     lambda o, k_: nn.symdel(o, max_edits=k_))))
+    else:
+        real = core.call_real(lambda: core.canon_trips(run_history(nn, hist, xs, k)))
     sp = core.run_driver([{"op": "brute_self", "xs": xs, "k": k, "mode": "lev"},
                           {"op": "symdel_self", "xs": xs, "k": k, "mode": "lev"}])
     print("input:", xs, "k =", k)
